@@ -172,6 +172,10 @@ def pack_case(draw, mode):
         S = St.leaf(shape, dtype)
     else:
         S = St.stokes(draw(st.sampled_from(['I', 'QU', 'IQU', 'IQUV'])), shape, dtype)
+        if draw(st.integers(0, 2)) == 0 and len(S['kind']) > 1:
+            # components of different dtypes: the pack acts on every leaf by itself
+            pool = ['float32', 'float16'] + (['float64'] if mode == 'x64' else [])
+            S['dtypes'] = [draw(st.sampled_from(pool)) for _ in S['kind']]
     probe = draw(st.lists(st.integers(0, 1000), min_size=8, max_size=8))
     return {'kind': 'pack', 'S': S, 'mask': mask, 'probe': probe}
 
@@ -352,6 +356,8 @@ def check(recipe, mode):
             classes.append('negative_step')
     if St.nleaves(S) >= 2:
         classes.append('multi_leaf')
+    if S.get('dtypes') and len(set(S['dtypes'])) > 1:
+        classes.append('mixed_component_dtypes')
     if not truly_unique:
         classes.append('non_unique_selection')
     return {'nontrivial': nontrivial, 'classes': classes}
